@@ -4,6 +4,7 @@ import NauyacaVerif.Srv.Conn
 import NauyacaVerif.Srv.Pump
 import NauyacaVerif.Gen.Params
 import NauyacaVerif.Gen.Tls
+import NauyacaVerif.Srv.FlowProof
 
 /-! # C06  Responses arrive complete and unaltered, for any size, on both TLS backends
 
@@ -137,4 +138,37 @@ example : connWrites ⟨20, [116], .str [233]⟩ = [[50, 48, 32, 116, 13, 10], [
 example : connWrites ⟨51, [116], .bytes [1, 2, 3]⟩ = [[53, 49, 32, 116, 13, 10]] := by decide
 example : bodyWrites 3 [1, 2, 3, 4, 5, 6, 7] = [[1, 2, 3], [4, 5, 6], [7]] := by decide
 example : bodyWrites 0 [1, 2, 3] = [[1, 2, 3]] := by decide
+
+/-! ### the standard-library backend under flow control
+
+`stdlib_delivers` above is the transport that never pauses.  asyncio's TLS transport does pause (`pause_writing`) when a
+large response meets a slow reader; the server then hands the response over piece by piece (M-Flow).  For EVERY schedule of
+pause / resume / disconnect events after the response was handed over: -/
+
+/-- what has been written is always a prefix of exactly the encoded response (nothing altered, nothing reordered) -/
+theorem stdlib_flow_prefix (r : Srv.Resp) (evs : List Srv.Flow.FEv) :
+    (Srv.Flow.frun (.send (Srv.Flow.pieces r) :: evs)).done.flatten <+: (Srv.render r).1 ++ (Srv.render r).2 := by
+  have h := Srv.Flow.frun_inv (.send (Srv.Flow.pieces r) :: evs)
+  have ha := Srv.Flow.frun_send_all (Srv.Flow.pieces r) evs
+  have key : (Srv.Flow.pieces r).flatten = (Srv.Flow.frun (.send (Srv.Flow.pieces r) :: evs)).done.flatten ++ (Srv.Flow.frun (.send (Srv.Flow.pieces r) :: evs)).unsent.flatten := by
+    have := congrArg List.flatten h.total
+    rw [List.flatten_append, ha] at this
+    exact this.symm
+  rw [← Srv.Flow.pieces_flatten r, key]
+  exact List.prefix_append _ _
+
+/-- and when the connection is closed the peer has been sent ALL of it: complete, for any size, however slowly it reads -/
+theorem stdlib_flow_complete (r : Srv.Resp) (evs : List Srv.Flow.FEv)
+    (hc : (Srv.Flow.frun (.send (Srv.Flow.pieces r) :: evs)).closed = true) :
+    (Srv.Flow.frun (.send (Srv.Flow.pieces r) :: evs)).done.flatten = (Srv.render r).1 ++ (Srv.render r).2 := by
+  have h := Srv.Flow.frun_inv (.send (Srv.Flow.pieces r) :: evs)
+  have ha := Srv.Flow.frun_send_all (Srv.Flow.pieces r) evs
+  have hu := h.closedEmpty hc
+  have key := congrArg List.flatten h.total
+  rw [List.flatten_append, ha, hu] at key
+  rw [← Srv.Flow.pieces_flatten r, ← key]; simp
+
+/-- the pieces are what `stdSend` writes in one go: the two descriptions of the backend agree when nothing pauses -/
+theorem stdlib_flow_unpaused (r : Srv.Resp) :
+    (Srv.Flow.frun [.send (Srv.Flow.pieces r)]).out = (Srv.Flow.pieces r).map .write ++ [.close] := Srv.Flow.send_unpaused _
 end NauyacaVerif.C06
